@@ -49,12 +49,15 @@ def ensure_driver() -> None:
         raise Infra("cannot build the model driver:\n" + log[-3000:])
 
 
-def run_model(lines: list[str], timeout: float = 600.0) -> list[str]:
+def run_model(lines: list[str], timeout: float = 300.0) -> list[str]:
     """pipe request lines to the native driver; one answer line per request"""
     if not lines:
         return []
     data = "\n".join(lines) + "\n"
-    r = subprocess.run([str(DRIVER)], input=data, capture_output=True, text=True, timeout=timeout)
+    try:
+        r = subprocess.run([str(DRIVER)], input=data, capture_output=True, text=True, timeout=timeout)
+    except subprocess.TimeoutExpired:
+        raise Infra(f"model driver did not answer {len(lines)} requests within {timeout}s")
     out = r.stdout.split("\n")
     if out and out[-1] == "":
         out.pop()
